@@ -122,7 +122,7 @@ class NMAP(Application, discriminator="nmap"):
                 data=results,
             )
 
-        rm = RequestManager()
+        rm = super()._init_request_manager()
 
         rm.add_request(
             name="ping_scan",
